@@ -44,7 +44,7 @@ class C15(Check):
                    'shutdown order is required for every configured attachment between existing modules, whether or '
                    'not it was used before']
     PROBES = ('c15.attachment-edge', 'c15.cyclic', 'c15.missing-target', 'c15.wrong-type', 'c15.pinata', 'c15.shared-io',
-              'c15.failing-init', 'c15.hanging-first-poll', 'c15.configured-write', 'c15.shutdown-during-read', 'c15.restart',
+              'c15.failing-init', 'c15.hanging-first-poll', 'c15.configured-write', 'c15.shutdown-during-read', 'c15.restart', 'c15.attached-to-dynamic-module',
               'c15.unexported-module', 'fault.first-read-comfail')
 
     def gen_case(self, rng, tier):
@@ -94,6 +94,11 @@ class C15(Check):
             a = rng.randrange(n)
             mods[a]['atts'].append({'to': None, 'phase': 'never', 'mandatory': True, 'kind': 'notgiven'})
             err = 'notgiven'
+        pinata = rng.random() < 0.2
+        pin_pos = rng.choice(['first', 'middle', 'middle', 'last'])
+        if pinata and err is None and rng.random() < 0.5:
+            # a configured module is attached to a module which only the pinata brings (declared before or after it)
+            rng.choice(mods)['atts'].append({'to': 'dyn0', 'phase': rng.choice(PHASES), 'mandatory': True, 'kind': 'ok'})
         for i, m in enumerate(mods):
             for j, a in enumerate(m['atts']):
                 a['attr'] = f'att{j}'
@@ -101,7 +106,7 @@ class C15(Check):
         rng.shuffle(decl)
         shape = {'p_switch': rng.choice([0.1, 0.3]), 'line_gaps': rng.choice([0, 0, 10]),
                  'mods': mods, 'decl': decl, 'err': err,
-                 'pinata': rng.random() < 0.2, 'shared_io': rng.random() < 0.25,
+                 'pinata': pinata, 'pin_pos': pin_pos, 'shared_io': rng.random() < 0.25,
                  'hang': rng.random() < 0.06, 'run_time': rng.choice([0.5, 3.0]),
                  'shutdown_in_read': rng.random() < 0.3, 'read_dur': rng.choice([0.1, 0.2, 0.3, 0.7]),
                  # Server.run() after Server.restart(): shut down, then the same configuration is started again in
@@ -309,7 +314,10 @@ class C15(Check):
                     yield 'dyn0', {'cls': dyn, 'description': 'dynamic', 'pollinterval': {'value': 0.5}}
             classes.append(Pin)
             items = list(cfg.items())
-            items.insert(len(items) // 2, ('pin', {'cls': Pin, 'description': 'pinata'}))
+            pos = {'first': 0, 'middle': len(items) // 2, 'last': len(items)}[shape.get('pin_pos', 'middle')]
+            items.insert(pos, ('pin', {'cls': Pin, 'description': 'pinata'}))
+            if any(a['to'] == 'dyn0' for m in mods for a in m['atts']):
+                sim.count('c15.attached-to-dynamic-module')
             cfg = dict(items)
         ctx['cleanup'] = [lambda: env.forget_classes(*classes), HasIO.ioDict.clear]
         srv = world.make_server('n', cfg)
